@@ -171,6 +171,35 @@ FidValOk(vid, key, ck, r) ==
   key # Zero(8) => /\ r.str = FidText(vid, key, ck)
                    /\ ~r.back.err /\ r.back.vid = vid /\ r.back.key = key /\ r.back.ck = ck
 
+(* URL form of a needle id: "<key hex><cookie hex>[_<delta>]" means key + delta (Needle.ParsePath);
+   deltas of more than 4 significant digits and sums beyond 2^64 are left open *)
+RECURSIVE AddC(_, _)
+AddC(bs, c) == IF bs = <<>> THEN <<>> ELSE LET x == bs[Len(bs)] + c IN AddC(Front(bs), x \div 256) \o <<x % 256>>
+RECURSIVE Carry(_, _)
+Carry(bs, c) == IF bs = <<>> THEN c ELSE Carry(Front(bs), (bs[Len(bs)] + c) \div 256)
+LastUnderscore(s) == IF \E i \in 1..Len(s) : s[i] = 95 THEN CHOOSE i \in 1..Len(s) : s[i] = 95 /\ \A j \in (i + 1)..Len(s) : s[j] # 95 ELSE 0
+PathClass(s) ==
+  LET ui == LastUnderscore(s)
+      base == IF ui > 1 THEN SubSeq(s, 1, ui - 1) ELSE s
+      delta == IF ui > 1 THEN SubSeq(s, ui + 1, Len(s)) ELSE <<>>
+      sig == StripLeading(delta, 48)
+  IN IF Len(base) < 9 \/ Len(base) > 24 \/ ~(\A i \in 1..Len(base) : IsHex(base[i])) \/ ~AllIn(delta, 48..57) THEN Invalid
+     ELSE IF Len(sig) > 4 THEN [cls |-> "open"]
+     ELSE LET kc == UnHex(Rep(48, 24 - Len(base)) \o base)
+              d == NumVal(sig)
+              canon == /\ \A i \in 1..Len(base) : IsLowerHex(base[i])
+                       /\ Len(base) % 2 = 0 /\ ~(base[1] = 48 /\ base[2] = 48)
+                       /\ (ui > 1 => delta # <<>> /\ delta[1] # 48)
+          IN IF Carry(SubSeq(kc, 1, 8), d) # 0 THEN [cls |-> "open"]
+             ELSE [cls |-> IF canon THEN "exact" ELSE "lenient", key |-> AddC(SubSeq(kc, 1, 8), d), ck |-> SubSeq(kc, 9, 12)]
+PathOk(s, res) ==
+  LET k == PathClass(s)
+      same == ~res.err /\ res.key = k.key /\ res.ck = k.ck IN
+  CASE k.cls = "exact" -> same
+    [] k.cls = "lenient" -> res.err \/ same
+    [] k.cls = "open" -> TRUE
+    [] OTHER -> res.err
+
 (* ------------------------------------------------------------- index entry *)
 (* off = the offset in units of 8 bytes as a 5-byte big-endian number; the stored
    form is the low four bytes big-endian, followed by the fifth (highest) byte
@@ -259,6 +288,11 @@ ExtraU == {[present |-> FALSE, data |-> 0, parity |-> 0, ids |-> <<>>],
 SbU == [ver : {1, 2, 3}, p : {<<0,0,0>>, <<0,0,1>>, <<1,1,0>>, <<2,2,2>>}, ttl : {<<0,0>>, <<3,1>>, <<255,6>>},
         rev : {0, 256, 65535} \cup (IF Level = 1 THEN {} ELSE {1, 255}), extra : ExtraU]
 
+PathU == {HexBytes(StripLeading(key, 0)) \o HexBytes(ck) \o suf :
+            key \in {Zero(7) \o <<1>>, Zero(6) \o <<1, 255>>, Zero(4) \o <<255, 255, 255, 255>>, Rep(255, 8), <<1>> \o Zero(7), Zero(8)},
+            ck \in {<<0,0,0,0>>, <<222,173,190,239>>},
+            suf \in {<<>>, <<95>>, <<95,49>>, <<95,50,53,53>>, <<95,57,57,57,57>>, <<95,48,49>>, <<95,48>>, <<95,49,48,48,48,48>>,
+                     <<95,120>>, <<95,45,49>>, <<95,49,95,50>>, <<95,95,49>>}}
 Domain ==
   [k : {"ttlval"}, c : 0..255, u : 0..6] \cup
   [k : {"ttlstr"}, s : TtlStrU] \cup
@@ -268,6 +302,7 @@ Domain ==
   [k : {"fidval"}, vid : VidU, key : KeyU, ck : CkU] \cup
   [k : {"fidstr"}, s : FidStrU] \cup
   [k : {"idx"}, key : KeyU, off : OffU, size : SizeU] \cup
+  [k : {"path"}, s : PathU] \cup
   [k : {"sbval"}, a : SbU]
 
 TtlImage == {TtlString(t) : t \in TTLDom}
@@ -296,6 +331,12 @@ Laws(x) ==
          LET k == FidClass(x.s) IN
          /\ (k.cls = "exact" => FidText(k.vid, k.key, k.ck) = x.s)
          /\ (k.cls = "lenient" => FidText(k.vid, k.key, k.ck) # x.s)
+    [] x.k = "path" ->
+         LET k == PathClass(x.s) IN
+         /\ k.cls \in {"exact", "lenient", "open", "invalid"}
+         /\ (k.cls = "exact" /\ LastUnderscore(x.s) = 0 =>            \* without delta: the text of a file id behind the comma
+               LET f == FidClass(<<51, 44>> \o x.s) IN f.cls = "exact" /\ f.key = k.key /\ f.ck = k.ck)
+         /\ (k.cls \in {"exact", "lenient"} => Len(k.key) = 8 /\ AllIn(k.key, Byte))
     [] x.k = "idx" ->
          OffInRange(x.off) =>
            /\ Len(IdxEncode(x.key, x.off, x.size)) = EntrySize
